@@ -7,6 +7,7 @@ package snapshot
 
 // Ghost record of the externally visible steps of the snapshotter (file system, metadata store, backend).
 //   unmountTried[mp]  the backend was asked to unmount mp
+//   removeTried[p]    the recursive delete of p was attempted
 //   dirInPlace[p]     a directory was renamed to p
 //   cleanups          number of snapshot directories handed to cleanupSnapshotDirectory (unmount + delete)
 //   txCommitted       number of metadata transactions committed
@@ -14,6 +15,7 @@ package snapshot
 //   availChecked[k]   the chain starting at snapshot key k passed the availability check
 //   restoreTried      number of recorded remote snapshots whose backend mount was attempted by the restore loop
 //@ ghost unmountTried map[string]bool
+//@ ghost removeTried map[string]bool
 //@ ghost dirInPlace map[string]bool
 //@ ghost cleanups int
 //@ ghost txCommitted int
@@ -30,6 +32,10 @@ package snapshot
 //@   modifies fsMountsOK
 //@   ensures (result == nil ==> fsMountsOK == old(fsMountsOK) + 1) && (result != nil ==> fsMountsOK == old(fsMountsOK))
 //@   params a0, a1, a2
+//@ func os.RemoveAll
+//@   trusted
+//@   modifies removeTried[*]
+//@   ensures removeTried[path] && (forall k string :: k != path ==> removeTried[k] == old(removeTried[k]))
 //@ func os.Rename
 //@   trusted
 //@   modifies dirInPlace[*]
@@ -39,12 +45,15 @@ package snapshot
 //@   ensures (result == nil ==> txCommitted == old(txCommitted) + 1) && (result != nil ==> txCommitted == old(txCommitted))
 
 // ---- C08: a backend mount is unmounted before its directory is deleted ----
+// ---- C09: ... and the delete is attempted whatever the unmount answered (after a crash the backend knows none of the
+// leftover directories, so its Unmount fails for every one of them; they must still go away in that one pass) ----
 //@ func (o *snapshotter) cleanupSnapshotDirectory
-//@   props C08
-//@   modifies unmountTried[*], cleanups
+//@   props C08, C09
+//@   modifies unmountTried[*], removeTried[*], cleanups
 //@   ghostentry cleanups = cleanups + 1
 //@   assert[C08] before "if err := os.RemoveAll(dir); err != nil {" : unmountTried[mp]
 //@   ensures[C08] cleanups == old(cleanups) + 1
+//@   ensures[C09] removeTried[dir]
 
 // ---- C08: mounts are handed out only for a chain that passed the availability check ----
 // (checkAvailability fans the per-layer checks out to goroutines; its result is assumed to mean what it says)
